@@ -418,21 +418,30 @@ def check_worklist(ctx, fi, g, loop, head, ent):
     probs = []
     for n, call in appends:
         guarded = False
+        wrong = []
         for d in dom[n.id]:
             dn = g.nodes[d]
             if dn.kind == 'test' and head in dn.loops:
                 for sub in ast.walk(dn.ast):
                     if isinstance(sub, ast.Compare) and isinstance(sub.ops[0], (ast.In, ast.NotIn)):
                         seen = norm(sub.comparators[0])
-                        # the same set must be added to inside the loop
+                        tested = norm(sub.left)
+                        # the same set must be added to inside the loop, and with the very value that is tested:
+                        # a guard that remembers something else never fires on the second visit
                         for m in g.nodes:
                             if head in m.loops:
                                 for e in cfgmod.node_exprs(m):
                                     for s2 in ast.walk(e):
                                         if isinstance(s2, ast.Call) and isinstance(s2.func, ast.Attribute) and s2.func.attr == 'add' \
-                                                and norm(s2.func.value) == seen:
-                                            guarded = True
-        if not guarded:
+                                                and norm(s2.func.value) == seen and len(s2.args) == 1:
+                                            if norm(s2.args[0]) == tested:
+                                                guarded = True
+                                            else:
+                                                wrong.append((tested, seen, norm(s2.args[0])))
+        if not guarded and wrong:
+            probs.append('the visited-set guard of the work list tests `%s in %s` but records `%s`: what is remembered is not what is tested, so a '
+                         'directory reached a second time (a cycle on disc) is not recognised and the walk never ends' % wrong[0])
+        elif not guarded:
             probs.append('`%s` grows the work list from on-disc pointers without a visited-set guard: a directory whose child points back '
                          'at it (or at an ancestor) is walked for ever, allocating without bound' % norm(call))
     return probs
